@@ -343,6 +343,17 @@ def text_attr(kind, op, tag, diag):
     return ["C14"]
 
 
+def native_jobs(tier):
+    jobs = []
+    for nestk in range(5):
+        for lhs in range(8):
+            if tier == "quick" and (nestk * 3 + lhs + vlib.seed()) % 3 and not (nestk == 0 and lhs == 4):
+                continue
+            cc = "clang" if (nestk + lhs) % 5 == 0 else "gcc"
+            jobs.append(dict(src="h_native.cpp", cc=cc, tag="nt-%s-%d-%d" % (cc, nestk, lhs), defines=["NEST=%d" % nestk, "LHS_INDEX=%d" % lhs]))
+    return jobs
+
+
 def wide_jobs(tier):
     sets = [0, 1, 2, 3] if tier == "quick" else [0, 1, 2, 3, 4]
     jobs = [dict(src="h_wide.cpp", cc="gcc", tag="wide-gcc-%d" % k, defines=["WIDE_SET=%d" % k]) for k in sets]
@@ -351,6 +362,7 @@ def wide_jobs(tier):
 
 
 FAMILIES = {
+    "native": dict(jobs=native_jobs, attr=lambda kind, op, tag, diag: ["C12"]),
     "text": dict(jobs=text_jobs, attr=text_attr, record_timeout=1800),
     "wide": dict(jobs=wide_jobs, attr=lambda kind, op, tag, diag: ["C10"], record_timeout=1800),
     "fraction": dict(jobs=simple_jobs("h_fraction.cpp", "fraction"), attr=fraction_attr),
@@ -481,6 +493,21 @@ CHECKS = {
                "operator~ and mixed-width operators do not compile for multi-limb wide_integer and are not exercised; the "
                "number of operand pairs per type is bounded (BigInt judging of 2048-bit quotients is slow); comparisons of "
                "wide_integer (C03's clause) are judged here"),
+    "C12": chk(["native", "overflow"], [],
+               "events = wrapper expression next to the bare built-in expression for wrapper nestings {scaled<_,0>, "
+               "overflow_integer<_,native>, rounding_integer<_,native>, scaled<overflow<rounding>>, overflow<rounding>} x "
+               "operators {+,-,*,/,%,&,|,^,<<,>>, six comparisons, unary -, +=,-=,*=,/=, ++/-- pre and post} x 8..64-bit operand "
+               "type pairs (quick: a rotating third of (nesting, lhs type)), 8-bit operands from the full TLC boundary set "
+               "(exhaustive in thorough), wider: TLC boundary sets + random; the documented kernels (multiply-widen, square, "
+               "average, mixed-exponent add) next to hand-written integer code; native_overflow_tag events of the overflow "
+               "family; non-trivial = result that does not fit int / mixed signedness",
+               "TLA+ spec (SemNative over CxxInt: C++ promotion, usual arithmetic conversions, modular/UB semantics) is the "
+               "oracle for both the wrapper and the bare expression; TLC evaluates it on every recorded event (trace validation)",
+               "wrapper value and promoted result representation must equal what CxxInt says the bare expression yields (and the "
+               "compiler's bare result must agree with CxxInt, which also validates the oracle); compound assignment = binary "
+               "operator then conversion to the left type; ++/-- = +/- 1.",
+               "not covered: all 2^64 operand pairs per kernel and equivalence of the compiled IR (explicit-state checking "
+               "cannot enumerate them); inputs on which the bare expression is undefined are skipped"),
     "C13": chk(["text"], [],
                "events = cnl::to_chars(first, first+cap, v) for scaled_integer (radix 2/3/8/10, exponents -70..70, reps 8..64 "
                "bit, core list + VERIF_SEED sample) and integers (8..128 bit, elastic; bases 2/8/10/16/36) x all values of 8-bit "
